@@ -141,6 +141,33 @@ def faults(report, folder):
         with open(path, "wb") as truncated:
             truncated.write(data[:offset])
         check("archive truncated at byte %d" % offset)
+    encodings(report, folder)
+
+
+def encodings(report, folder):
+    """'In any encoding the format allows': content.xml as UTF-8, UTF-16 (either byte order, with byte order mark) and
+    ISO-8859-1, with and without white space behind the root element -- the same rows."""
+    from cutplace import rowio
+    table = [["a", "\u00e9 b"], ["c  d", ""], ["<&>", "x"]]
+    content = odslib.content_xml([odslib.plain_sheet(table)])
+    path = os.path.join(folder, "encoded.ods")
+    for encoding, declared in (("utf-8", "UTF-8"), ("utf-8-sig", "UTF-8"), ("utf-16", "UTF-16"), ("iso-8859-1", "ISO-8859-1"),
+                               ("utf-16-le", None), ("utf-16-be", None)):
+        for trailer in ("", "\n", "\r\n", " ", "\n\n\t "):
+            text = content
+            if declared is None:   # (explicit byte order: the byte order mark is written by hand)
+                odslib.write_ods(path, "\ufeff" + text, encoding=encoding, declared="UTF-16", trailer=trailer)
+            else:
+                odslib.write_ods(path, text, encoding=encoding, declared=declared, trailer=trailer)
+            report.replayed += 1
+            try:
+                rows = list(rowio.ods_rows(path))
+            except Exception as error:  # noqa
+                rows = "%s: %s" % (type(error).__name__, str(error)[:120])
+            if rows != table:
+                report.violation("c15", {"fault": "encoding %s, trailer %r" % (encoding, trailer)}, table, rows,
+                                 "content.xml encoded as %s with %r behind the root element: reading gives %r instead of %r" % (
+                                     encoding, trailer, rows, table))
 
 
 def replay(behaviour, report=None):
